@@ -35,8 +35,39 @@ def infer_family(pid, tier, chk=None):
 RUNNERS = {}
 
 
+
+
+from . import drive_registry as DR
+
+
+def registry_cases(chk, n_random):
+    cases = []
+    for _ in range(n_random):
+        samples = DR.random_merge_input(chk.rng)
+        envspec = chk.rng.choice(DI.RANDOM_ENVS[:3] + [{}])
+        cases.append(([("Root", samples)], envspec, chk.rng.choice(DR.POLICIES), "rnd"))
+    return cases
+
+
+def registry_family(pid, tier, chk=None):
+    chk = chk or Check(pid, tier)
+    quick = tier == "quick"
+    n_random = 400 if quick else 5000
+    cases = registry_cases(chk, n_random)
+    traces, inputs = DR.registry_traces(pid, chk, cases)
+    chk.rules.append("%d seeded random nested inputs x merge policies through the real ModelRegistry "
+                     "(generate, process_meta_data, merge_models, second optimise pass)" % n_random)
+    chk.validate("Trace_Registry", traces, inputs, shard=25)
+    return chk
+
+
 def run(pid, tier, replay=None):
+    chk = Check(pid, tier)
     if pid in ("C01", "C02", "C07", "C08", "C13"):
-        chk = infer_family(pid, tier)
+        infer_family(pid, tier, chk)
+        registry_family(pid, tier, chk)
+        return chk.finish()
+    if pid == "C05":
+        registry_family(pid, tier, chk)
         return chk.finish()
     raise tlc.MachineryError("no check for %s" % pid)
